@@ -230,7 +230,7 @@ def run_case(case):
     ref = canonical(name)
     if ref['final'][0] != 'quiescent-end':
         return {'viol': [('c03:canonical-run-fails:%s' % name, 'canonical delivery of %s ends with %r' % (name, ref['final']))],
-                'case': case, 'key': None}
+                'case': case, 'key': (name, 'canonical-run-fails')}
     dribble = case['cuts'] == 'dribble'
     if case.get('after_dead'):
         drole = conv()[name][0]
